@@ -51,6 +51,7 @@ LOG_REQ(FN_CTREED) LOG_ENS(FN_CTREED, tree->tok, 0,0,0,0,0, 0,0,0,0)
 __CPROVER_ensures(__CPROVER_return_value == (CPolyTreeD)TOK(FN_CTREED, OC_(FN_CTREED)))
 __CPROVER_assigns(LOG_ASG(FN_CTREED));
 bool CRectIsEmpty(VTok rect)
+BOOL_RET
 LOG_REQ(FN_RECTEMPTY) LOG_ENS(FN_RECTEMPTY, rect.tok, __CPROVER_return_value, 0,0,0,0, 0,0,0,0)
 __CPROVER_assigns(LOG_ASG(FN_RECTEMPTY));
 VTok CRectToRect(VTok rect)
